@@ -239,7 +239,7 @@ def detectModifications (e : Engine M) (r : Nat) : Engine M :=
   let e1 :=
     if (posOf e sym).qty > 0 then
       (if ¬ validRows (fmt st.decl.buy) then fail e .InvalidStrategy
-       else if st.decl.buy.map (fun x => x) ≠ st.shadow.buy ∧ fmt st.decl.buy ≠ fmt st.shadow.buy then
+       else if st.shadow.buy.isNone ∨ fmt st.decl.buy ≠ fmt st.shadow.buy then
         let e' := setStrat e r (fun s => { s with shadow := { s.shadow with buy := some (fmt s.decl.buy) },
                                                   decl := { s.decl with buy := some (fmt s.decl.buy) } })
         let e'' := (entryOrders e' sym).foldl (fun e id => cancelOrder e id) e'
@@ -247,7 +247,7 @@ def detectModifications (e : Engine M) (r : Nat) : Engine M :=
        else setStrat e r (fun s => { s with decl := { s.decl with buy := some (fmt s.decl.buy) } }))
     else
       (if ¬ validRows (fmt st.decl.sell) then fail e .InvalidStrategy
-       else if fmt st.decl.sell ≠ fmt st.shadow.sell then
+       else if st.shadow.sell.isNone ∨ fmt st.decl.sell ≠ fmt st.shadow.sell then
         let e' := setStrat e r (fun s => { s with shadow := { s.shadow with sell := some (fmt s.decl.sell) },
                                                   decl := { s.decl with sell := some (fmt s.decl.sell) } })
         let e'' := (entryOrders e' sym).foldl (fun e id => cancelOrder e id) e'
